@@ -14,6 +14,8 @@ E-sched on the legacy NDNApp (virtual loop, simulated certificate producer):
 """
 from __future__ import annotations
 
+import hashlib
+
 import datetime as dt
 import itertools
 
@@ -50,7 +52,8 @@ SCHEMA_ALT = SCHEMA_LINEAR.replace('#d2: #site/"data"/"d2"/x <= #l1', '#d2: #sit
 SCHEMAS = {'linear': SCHEMA_LINEAR, 'alt': SCHEMA_ALT}
 LEVEL_PREFIX = ['/t', '/t/l1', '/t/l1/l2', '/t/l1/l2/l3']
 DEVIATIONS = ['hmac-with-public-bits', 'unknown-signature-type', 'issuer-not-allowed', 'bad-signature', 'substituted-key', 'missing', 'nack', 'no-siginfo', 'no-keylocator',
-              'keylocator-digest', 'self-loop', 'two-cycle']
+              'keylocator-digest', 'self-loop', 'two-cycle', 'locator-full-name', 'locator-wrong-digest']
+VALID_VARIANTS = ('locator-full-name',)       # not deviations at all: the chain stays valid
 KEYS = {'ec': ['ec256_0', 'ec256_1', 'ec256_2', 'ec256_3', 'ec256_4'], 'rsa': ['rsa2048_0', 'rsa2048_1', 'rsa2048_2', 'rsa2048_3'],
         'ed': ['ed25519_0', 'ed25519_1']}
 
@@ -85,6 +88,19 @@ class Hierarchy:
             with owned_random(('c14', depth, tuple(types), deviation, at, keyset)):
                 self.build(depth, types, deviation, at, keyset, tag)
 
+    def final_cert(self, name, cert):
+        return self.store.get(bytes(enc.Name.to_bytes(name)), bytes(cert))
+
+    def full_name(self, name, cert, dev, level):
+        """the certificate named the other legal way: its name followed by the digest of the whole certificate (a wrong one for the deviation)"""
+        digest = hashlib.sha256(bytes(cert)).digest()
+        if dev == 'locator-wrong-digest':
+            digest = bytes([digest[0] ^ 1]) + digest[1:]
+        full = list(name) + [enc.Component.from_bytes(digest, enc.Component.TYPE_IMPLICIT_SHA256)]
+        if level > 0 and dev == 'locator-full-name':
+            self.store[bytes(enc.Name.to_bytes(full))] = bytes(cert)      # the network answers a full name with exactly that packet
+        return full
+
     def keyname(self, level, types, keyset):
         t = types[level]
         pool = KEYS[t]
@@ -116,6 +132,8 @@ class Hierarchy:
             subject_pub = pub_der(keys[lv])
             signer = signer_for(issuer_key, issuer_cert_name)
             dev = deviation if (dev_level == lv and at >= 1) else None
+            if dev in ('locator-full-name', 'locator-wrong-digest'):
+                signer = signer_for(issuer_key, self.full_name(names[lv - 1], certs[lv - 1], dev, lv - 1))
             if dev == 'issuer-not-allowed':
                 signer = signer_for(extra['other'][0], extra['other'][1])
             elif dev == 'substituted-key':
@@ -177,6 +195,8 @@ class Hierarchy:
             signer = HmacSha256Signer(names[depth - 1], pub_der(keys[depth - 1]))
         elif dev in ('self-loop', 'two-cycle'):
             signer = signer_for(keys[depth - 1], pname)           # the packet names itself as its key
+        elif dev in ('locator-full-name', 'locator-wrong-digest'):
+            signer = signer_for(keys[depth - 1], self.full_name(names[depth - 1], self.final_cert(names[depth - 1], certs[depth - 1]), dev, depth - 1))
         elif dev == 'no-siginfo':
             signer = None
         pkt = bytes(enc.make_data(pname, enc.MetaInfo(freshness_period=1000), b'payload-' + tag.encode(), signer))
@@ -354,7 +374,7 @@ def run_chain(case):
         except Exception as e:  # noqa
             return [(f'C14|chain|constructor-raises:{type(e).__name__}', f'{e!r}; case {case}')], 'ctor'
         res = net.validate(val, h.packet)
-        want = case['dev'] is None
+        want = case['dev'] is None or case['dev'] in VALID_VARIANTS
         if case['schema'] == 'alt' and case['dev'] is None:
             want = True
         got = res.get('v')
